@@ -17,7 +17,14 @@ claim('C01', 'path-sensitive acquire/release pairing + arithmetic-assert dischar
       'Partial: decides frame push/pop and debug-hook take/restore pairing on every CFG exit of the 5 pushing functions; discharges or reviews every one of the ~130 overflow/neg/div-by-zero assert sites in the evaluator core; freezes the 28 explicit panic sites reachable from execute_cycle; budget check in every interpreter loop and FOR step-zero gate; checker/lowering/interpreter CASE selector tables; compile gate on parse errors and error diagnostics. Not decided: termination of user loops, stack depth of user recursion, implicit bounds checks, full checker/lowering agreement.',
       _TB, 'DESIGN.md section 4 / C01')
 
+claim('C07', 'dominance / must-pass / loop-structure rules on the cycle CFG + who-may-call over the call graph + codec table agreement',
+      'Claimed for order/once/who: input latch dominates scheduling and all program code, publication after all program code and on every Ok path, once per cycle and once per driver, only the two cycle I/O functions (and safe state, composite drivers) call drivers, no publication after a fault record. Codec clauses: little-endian both ways, per-size span agreement, read-modify-write bit access, mutually inverse coercion tables. Locality for arbitrary overlapping bindings and located-array element offsets are value-level and not decided.',
+      _TB, 'DESIGN.md section 4 / C07')
+claim('C08', 'dominance / must-pass-through on error edges + decision tables + loop exit-edge analysis + field write sets + who-may-call',
+      'Claimed: latch test dominates the cycle; every sub-step error edge passes record_fault; all fault entry points pass apply_fault; safe state iff decision flag and before the unconditional latch; decision tables; delivery loops have no early exit; only record/clear touch the latch and only restart/clear_fault clear it; resource loops mark Faulted only after the fault routine. Not decided: type-correctness of safe values.',
+      _TB, 'DESIGN.md section 4 / C08')
+
 _PENDING = 'check not built yet in this commit (work in progress; see DESIGN.md section 10 for the build order)'
-for _p in ['C02','C03','C04','C05','C06','C07','C08','C09','C10','C11','C12','C13','C14','C16','C17','C20']:
+for _p in ['C02','C03','C04','C05','C06','C09','C10','C11','C12','C13','C14','C16','C17','C20']:
     na(_p, _PENDING)
 na('C15', 'formatting token-sequence preservation and idempotence are equalities between values computed by string manipulation; no shape-of-code fact is a necessary condition that a realistic breaking edit would violate (DESIGN.md section 5)')
